@@ -751,7 +751,9 @@ class _Exporter:
         add(body)
         add(f"{indent}return {return_values}")
         script = "\n".join(result)
-        if self.skipped_initializers:
+        if self.skip_initializers:
+            # The function was emitted indented: always wrap it (make_model takes no parameter
+            # when no initializer was large enough to be skipped).
             value_infos = _translate_value_infos(graph.value_info, self._translate_onnx_var)
             return self._substitute_initializers(script, function_name, value_infos)
         return script
